@@ -60,7 +60,19 @@ fuzz_campaign() { # $1 = property
         a=$(ls "$art"crash-* 2>/dev/null | head -n 1)
         if [ -n "$a" ]; then
             keep="$VERIF/replays/fuzz-$1-$(basename "$a")"; mkdir -p "$VERIF/replays"; cp "$a" "$keep"
-            "$H/target/release/vcheck" fuzz-replay "$1" "$keep"; rc=$?
+            rout=$("$H/target/release/vcheck" fuzz-replay "$1" "$keep" 2>&1); rc=$?; echo "$rout"
+            if [ $rc -eq 0 ]; then
+                # the fuzz targets are built with debug assertions and overflow checks: a failure that the release build does not
+                # show is looked for once more with the harness binary built that way; if neither reproduces it, the campaign is
+                # inconclusive (the artifact is kept), never silently green
+                json=$(echo "$rout" | grep -a "fuzz-replay: case written to " | head -n 1 | sed 's/.*case written to //')
+                if [ -n "$json" ] && [ -x "$H/target/relassert/vcheck" ]; then
+                    VCHECK_ANY_PROFILE=1 "$H/target/relassert/vcheck" replay "$json" --verif-dir "$VERIF"; rc=$?
+                fi
+                if [ $rc -eq 0 ]; then
+                    echo "INCONCLUSIVE: the fuzz target reported a failure ($keep) that neither replay reproduces" >&2; rc=2
+                fi
+            fi
         else
             echo "HARNESS-ERROR: fuzz violation without artifact" >&2; rc=2
         fi
